@@ -156,7 +156,7 @@ def per_program(p):
 
 
 def plan(tier, seed):
-    n = 90 if tier == "quick" else 1500
+    n = 160 if tier == "quick" else 1500
     depth = 4 if tier == "quick" else 5
     shards = [{"seed": seed * 1000 + k, "n": n, "depth": depth, "adversarial": k % 2 == 1} for k in range(16)]
     # one parameterised generic met twice in one annotation (nested first / bare first)
